@@ -19,6 +19,10 @@ PROPS = {
         technique="complete grid: boundary magnitudes x every CBOR head width x major type, direct and embedded decodes",
         text="Every spelling (13 magnitudes x all fitting head widths x unsigned/negative) is decoded as PositiveCoin and NonZeroInt and embedded as asset quantity of conway Value, Mint, TransactionBody.mint and as TransactionBody.donation; accepted values must be non-zero and equal to the wire value, every spelling of zero must be rejected.",
         note="boundary magnitudes only; complete over head widths"),
+    "C20": dict(crate="mc-net1", level=MC, ref="5/C20, 1.2",
+        technique="stateless exploration of all task schedules within a delay bound (deviation-bounded DFS under an owned scheduler) of the real Muxer/Demuxer loops",
+        text="Two real Plexers joined by an in-memory pipe of 8/24/4096 bytes; the real Muxer::run and Demuxer::run loops and scripted agents are tasks of an owned deterministic scheduler; every schedule with at most 3 (quick) / 4 (thorough) deviations from the default scheduler is executed to quiescence and each receiver must hold exactly its sender's chunk sequence (scenarios: two protocols, both directions, same protocol number in both roles, a 65535-byte chunk; network2: senders sharing the write half behind the interface's mutex + read_full_msgs).",
+        note="tokio mpsc/duplex/Mutex are trusted to be linearizable and runtime-agnostic; Plexer::spawn itself is replaced by into_parts + the owned scheduler; preemption inside one poll is not modelled"),
 }
 
 ALL_IDS = ["C%02d" % i for i in range(1, 45)]
